@@ -283,7 +283,7 @@ def build_items(tier, seed):
                 if k == 1:
                     tsel = timing_all
                 elif tier == "quick":
-                    tsel = [timing_all[(kk * 5) % 12], timing_all[(kk * 7 + 1) % 12]] if k == 2 else [timing_all[(kk * 5) % 12]]
+                    tsel = timing_all if k == 2 else [timing_all[(kk * 5) % 12], timing_all[(kk * 7 + 1) % 12], timing_all[(kk * 11 + 2) % 12]]
                 else:
                     tsel = timing_all if k == 2 else timing_all[::2]
                 for (c, l) in dict.fromkeys(tsel):
@@ -295,6 +295,8 @@ def build_items(tier, seed):
     # slot exhaustion: more than five nodes force a join through a relay
     cases.append(dict(ids=[7, 8, 9, 10, 11, 12], offsets=[j * 5 * MS for j in range(6)], cost=0, lat=0, seed=seed, mlen=5, tail=300))
     cases.append(dict(ids=[21, 22, 23, 24, 25, 26, 27], offsets=[j * 40 * MS for j in range(7)], cost=0, lat=1, seed=seed, mlen=24, tail=300))
+    for oi, off in enumerate(itertools.permutations(range(4), 4)):
+        cases.append(dict(ids=[11, 12, 13, 14], offsets=[OFFSETS[o] for o in off], cost=oi % 4, lat=(oi // 4) % 3, seed=seed, mlen=oi))
     if tier == "thorough":
         cases.append(dict(ids=[7, 8, 9, 10, 11, 12], offsets=[j * 300 * US for j in range(6)], cost=2, lat=0, seed=seed, mlen=5, tail=300))
         cases.append(dict(ids=list(range(31, 43)), offsets=[j * 30 * MS for j in range(12)], cost=0, lat=0, seed=seed, mlen=5, tail=300))
